@@ -13,6 +13,11 @@ C04  Schedule and configuration independence — what is proved.
   asynchronous `set_data` addressed to that simulator (the deprecated async-requests feature).  This
   is the commutation fact the independence of the observations from the interleaving rests on: the
   observation a simulator makes next is fixed as soon as it is enabled, whatever happens first.
+* `begin_inputs_stable_cached` : the same with cached (pulled) connections into the simulator — the default
+  `cache=True` — provided the output times of the sources have not gone back (the cache keys increase in insertion
+  order; the complement of the known finding about non-monotone output times) and the cached connections are covered
+  by the input-delay table (`PullOk`): neither a `get_data` reply of a source (its entry lies after what the step
+  reads) nor cache pruning (which keeps everything a consumer can still read) changes what the enabled step will read.
 NOT proved: that all maximal runs give every simulator the same (time, inputs) sequence (the
 commutation/confluence argument of DESIGN.md).  That part is decided by exhaustive enumeration of all
 reply interleavings of small scenarios on the real scheduler and by the cross product of
@@ -20,6 +25,7 @@ configurations (lazy, cache, debug, start order, in-process / subprocess) on gen
 -/
 import MosaikModel.Deliver
 import MosaikProofs.Sched.Others
+import MosaikProofs.Sched.Cached
 namespace Mosaik.C04
 open Mosaik
 
@@ -164,5 +170,138 @@ theorem begin_inputs_stable {cfg : Cfg} (hw : WFCfg cfg) (hs : WFShape cfg) {ran
   have := (flat_lt hcl hal).mp hlt2
   rw [flat_act_time cp hc1 hl1] at this
   omega
+
+/-! ### … with cached connections -/
+
+/-- the lookups the step `c` of `q` makes -/
+def lookups (cfg : Cfg) (q : Sid) (c : TT) : List (Sid × Int) :=
+  (cfg.sim q).pulled.map (fun e => (e.1, (TT.time c : Int) - (tier e.2.1.tiers 0 : Int)))
+
+theorem pullInputs_congr {cfg : Cfg} {s s' : State} {q : Sid} {c : TT} (h : LookEq (lookups cfg q c) s s') (inp : InputData) :
+    pullInputs cfg s' q c inp = pullInputs cfg s q c inp := by
+  unfold pullInputs
+  have key : ∀ (l : List (Sid × TI × Port × Port)) (acc : InputData), (∀ e ∈ l, e ∈ (cfg.sim q).pulled) →
+      l.foldl (fun acc (e : Sid × TI × Port × Port) =>
+        let cache := getOutputFor (s'.sims e.1).outputs ((TT.time c : Int) - (tier e.2.1.tiers 0 : Int))
+        let v : Val := (OutData.get? cache e.2.2.1).getD .none
+        InputData.set acc { eid := e.2.2.2.1, attr := e.2.2.2.2, ssid := e.1, seid := e.2.2.1.1 } v) acc =
+      l.foldl (fun acc (e : Sid × TI × Port × Port) =>
+        let cache := getOutputFor (s.sims e.1).outputs ((TT.time c : Int) - (tier e.2.1.tiers 0 : Int))
+        let v : Val := (OutData.get? cache e.2.2.1).getD .none
+        InputData.set acc { eid := e.2.2.2.1, attr := e.2.2.2.2, ssid := e.1, seid := e.2.2.1.1 } v) acc := by
+    intro l
+    induction l with
+    | nil => intro acc _; rfl
+    | cons e l ih =>
+      intro acc hl
+      simp only [List.foldl_cons]
+      have he := h (e.1, (TT.time c : Int) - (tier e.2.1.tiers 0 : Int)) (by
+        unfold lookups
+        rw [List.mem_map]
+        exact ⟨e, hl e List.mem_cons_self, rfl⟩)
+      simp only at he
+      rw [he]
+      exact ih _ (fun x hx => hl x (List.mem_cons_of_mem _ hx))
+  exact key _ inp (fun _ h => h)
+
+/-- **C04, commutation, cache path.** -/
+theorem begin_inputs_stable_cached {cfg : Cfg} (hw : WFCfg cfg) (hs : WFShape cfg) {rank : Sid → Nat} (hfl : Flat cfg rank)
+    (hpo : PushOk cfg) (hpl : PullOk cfg)
+    {s s' : State} (hr : Reach cfg s) (hnf0 : s.failed = none) {q : Sid} (hq : q < cfg.n) {c : TT}
+    (hpc : (s.sims q).pc = .waitDeps c) (hready : depsReady cfg s q c = true)
+    {a : Action} (hact : a.actor ≠ some q) (hset : ∀ p e, a ≠ .setData p q e)
+    (hsorted : ∀ r, Sorted (s.sims r).outputs)
+    (hmono : ∀ p d c', a = .dataReply p d → (s.sims p).cur = some c' → ∀ e ∈ (s.sims p).outputs, e.1 ≤ (outTimeOf c' d).1)
+    (h : step cfg s a = some s') (hnf : s'.failed = none) :
+    stepInputs cfg s' q c = stepInputs cfg s q c := by
+  obtain ⟨hcore, hpcs⟩ := reach_good hw hr hnf0
+  obtain ⟨hwaithead, hwprog, _⟩ := (hpcs q hq).waiting c hpc
+  have hcl : c.length = 1 := by
+    rw [((reach_shape hw hs hr) q).1 c (List.mem_of_mem_head? hwaithead), hfl.depth]
+  have hown := step_other_own h hact hset
+  -- what a provider's reply adds is not yet due / lies after what the step reads
+  have later : ∀ p d cp, a = .dataReply p d → (s.sims p).cur = some cp → ¬ (TT.time cp : Int) > (outTimeOf cp d).1 →
+      ∀ (sh d0 : TI), (p, d0) ∈ (cfg.sim q).inputDelays → TI.le d0 sh → sh.cutoff = 1 → sh.tiers.length = 1 →
+      TT.time c < (outTimeOf cp d).1.toNat + tier sh.tiers 0 := by
+    intro p d cp ha hcur hot sh d0 hd0 hle hc1 hl1
+    have hp : p < cfg.n := by
+      subst ha
+      simp only [step, stepDataReply] at h
+      split at h
+      · rename_i hguard
+        simp only [Bool.and_eq_true] at hguard
+        exact live_lt hguard.1
+      · cases h
+    have hdep : c < TI.act (s.sims p).progress d0 := by
+      unfold depsReady at hready
+      simp only [Bool.and_eq_true, List.all_eq_true, decide_eq_true_eq] at hready
+      exact hready.1.1 (p, d0) hd0
+    rw [(hcore p hp).cur_eq cp hcur] at hdep
+    have hlt2 : c < TI.act cp sh := TT.lt_of_lt_of_le hdep (TI.act_mono_right cp hle)
+    have hal : (TI.act cp sh).length = 1 := by rw [TI.act_length, hl1]
+    have := (flat_lt hcl hal).mp hlt2
+    rw [flat_act_time cp hc1 hl1] at this
+    omega
+  -- the pushed part, as in `begin_inputs_stable`
+  have hdue : dueAt (TT.time c) (s'.sims q).buffer = dueAt (TT.time c) (s.sims q).buffer := by
+    apply step_other_due (TT.time c) h hact
+    intro p d cp ha hcur hot pe hpe hpq
+    have hp : p < cfg.n := by
+      subst ha
+      simp only [step, stepDataReply] at h
+      split at h
+      · rename_i hguard
+        simp only [Bool.and_eq_true] at hguard
+        exact live_lt hguard.1
+      · cases h
+    obtain ⟨d0, hd0, hle⟩ := hpo.covered p hp pe hpe
+    rw [hpq] at hd0
+    obtain ⟨hc1, hl1⟩ := hpo.shape p hp pe hpe
+    exact later p d cp ha hcur hot pe.2.2.1 d0 hd0 hle hc1 hl1
+  -- the pulled part
+  have hlast : lastTime s q ≤ (TT.time c : Int) := by
+    unfold lastTime
+    cases hl : (s.sims q).last with
+    | none => simp only; omega
+    | some t =>
+      simp only
+      have hb := reach_lastOk hw hr hnf0 q hq t hl
+      have hle := (hcore q hq).begun_le t hb
+      rw [hwprog] at hle
+      have := TT.time_mono hle
+      omega
+  have hlook : LookEq (lookups cfg q c) s s' := by
+    apply step_look h hact hsorted
+    · intro st hl hso x hx
+      unfold lookups at hx
+      rw [List.mem_map] at hx
+      obtain ⟨e, he, rfl⟩ := hx
+      simp only
+      apply prune_state_lookups cfg st (hpl.range q hq e he) hq he rfl (hso e.1)
+      unfold lastTime at hlast ⊢
+      rw [hl]; exact hlast
+    · intro p d cp ha hcur hot
+      refine ⟨?_, hmono p d cp ha hcur⟩
+      intro x hx hxp
+      unfold lookups at hx
+      rw [List.mem_map] at hx
+      obtain ⟨e, he, rfl⟩ := hx
+      simp only at hxp ⊢
+      obtain ⟨d0, hd0, hle⟩ := hpl.covered q hq e he
+      rw [hxp] at hd0
+      obtain ⟨hc1, hl1⟩ := hpl.shape q hq e he
+      have := later p d cp ha hcur hot e.2.1 d0 hd0 hle hc1 hl1
+      omega
+  -- put together
+  unfold OwnEq at hown
+  simp only [SimSt.own, Prod.mk.injEq] at hown
+  obtain ⟨_, _, _, hpers, hsetd⟩ := hown
+  unfold stepInputs
+  simp only [hpers, hsetd]
+  rw [pullInputs_congr hlook]
+  unfold bufferTake
+  simp only
+  unfold dueAt at hdue
+  rw [hdue]
 
 end Mosaik.C04
